@@ -25,10 +25,15 @@ def window(l0, l1, l2, before_ticks, after_ticks):
     return ns_of_filetime(start - before_ticks), ns_of_filetime(start + after_ticks) + 99
 
 
-def new_world(c, t_lo=None, t_hi=None):
+def new_world(c, t_lo=None, t_hi=None, concrete=False, extra=()):
     t = c.int("time_ns", t_lo, t_hi) if t_lo is not None else None
-    w = World(c, t_ns=t)
-    c.stubs(w.stubs(_crypto.kdf, _crypto.kdf_concat))
+    w = World(c, t_ns=t, concrete=concrete)
+    from .world import Algebra
+
+    w.algebra = Algebra(w)
+    extra = list(extra) + w.algebra.stubs()
+    # NB: stubs are installed exactly once per run (in native mode a second call would see the already patched module attributes)
+    c.stubs(w.stubs(_crypto.kdf, _crypto.kdf_concat) + list(extra))
     return w
 
 
